@@ -143,6 +143,7 @@ def build_c(q):
         cmd += ['--models', os.path.join(ENGINE, 'models', m + '.c')]
     for k in ob.get('keep', []): cmd += ['--root', k]
     for k in ob.get('allow_external', []): cmd += ['--define-external', k]
+    for k in ob.get('assert_external', []): cmd += ['--assert-external', k]
     r = run(cmd, cwd=wd, timeout=600)
     if r['rc'] != 0:
         raise ToolError('ir2c: ' + r['err'][-1500:])
@@ -211,7 +212,10 @@ def run_cbmc(q, extra=()):
     flags = list(CBMC_FLAGS)
     if ob.get('field_sens') is not None: flags[flags.index('--max-field-sensitivity-array-size') + 1] = str(ob['field_sens'])
     cmd = ['cbmc', 'q.c', '--function', 'vf_main', '--unwind', str(unwind_of(q))] + flags + list(ob.get('cbmc_flags', [])) + list(extra)
-    if ob.get('unwindset'): cmd += ['--unwindset', ob['unwindset']]
+    cu = str(ob.get('copy_unwind', 40))
+    uws = ','.join('%s.%d:%s' % (f, i, cu) for f, k in (('vf_memcpy', 2), ('vf_memmove', 4)) for i in range(k))
+    if ob.get('unwindset'): uws += ',' + ob['unwindset']
+    cmd += ['--unwindset', uws]
     if ob.get('sat_solver'): cmd += ['--sat-solver', ob['sat_solver']]
     tier_to = ob.get('timeout', 600)
     if os.environ.get('VF_TIMEOUT_CAP'): tier_to = min(tier_to, int(os.environ['VF_TIMEOUT_CAP']))
@@ -371,6 +375,10 @@ def do_query(q, tier, seed, validate=True):
         rec['stubs'] = [ln.split('prep_ir: ')[1] for ln in b['prep'].split('\n') if 'prep_ir: stub' in ln]
         rec['models_called'] = b['externals']
         c = run_cbmc(q)
+        if c['verdict'] == 'timeout' and not q.ob.get('sat_solver'):
+            # SAT run times vary; one retry with a different solver before giving up
+            rec['retried_with'] = 'cadical'
+            c = run_cbmc(q, extra=['--sat-solver', 'cadical'])
         rec['cbmc_wall_s'] = round(c['wall'], 2)
         if c['verdict'] == 'timeout':
             rec['reason'] = 'cbmc timeout after %ds (no verdict)' % q.ob.get('timeout', 600); return rec
